@@ -5,6 +5,9 @@ import PdfVerif.Generated.FnPredict
 import PdfVerif.Generated.FnCharcode
 import PdfVerif.Generated.FnCmap
 import PdfVerif.Generated.FnJbig2
+import PdfVerif.Generated.FnCcitt
+import PdfVerif.Generated.FnFrag
+import PdfVerif.Generated.FnContent
 /-!
 Line-protocol handler for the translated functions (key `TR`): `TR <fn> <args…>` is answered by
 evaluating the GENERATED Lean function (`PdfVerif.Gen.*`, re-created from the Go sources on
@@ -36,6 +39,44 @@ def ranges : List String → Option (List charcode_Range)
     let h ← parseHex hi
     let r ← ranges rest
     pure (⟨l, h⟩ :: r)
+
+def ints : List String → Option (List Int)
+  | [] => some []
+  | x :: xs => do
+    let v ← x.toInt?
+    let r ← ints xs
+    pure (v :: r)
+
+def pairs : List Int → Option (List (Int × Int))
+  | [] => some []
+  | [_] => none
+  | a :: b :: rest => (pairs rest).map fun r => (a, b) :: r
+
+/-- the control flow of `checkXRefStreamDict` around the GENERATED guard expressions (fragments):
+well-typed `/Size`, `/W` (three integers) and `/Index` (pairs of integers, or absent) -/
+def xrefGuards (sizeOk : Bool) (size rawLen w0 w1 w2 : Int) (index : Option (List (Int × Int))) : String :=
+  if frag_checkXRefStreamDict_sizeBad sizeOk size then "err" else
+  if frag_checkXRefStreamDict_widthBad true w0 || frag_checkXRefStreamDict_widthBad true w1 ||
+     frag_checkXRefStreamDict_widthBad true w2 then "err" else
+  if frag_checkXRefStreamDict_widthsZero w0 w1 w2 then "err" else
+  let subs : Option (List Int) :=
+    match index with
+    | none => some [size]
+    | some ps =>
+      if ps.any (fun p => frag_checkXRefStreamDict_subsectionBad p.1 p.2 size) then none
+      else some (ps.map (·.2))
+  match subs with
+  | none => "err"
+  | some sizes =>
+    let total := sizes.foldl (· + ·) 0
+    if frag_checkXRefStreamDict_tooMany total (frag_checkXRefStreamDict_maxEntries rawLen) then "err" else "nil"
+
+/-- the statements of `FilterCCITTFax.Decode` around the GENERATED clamp expressions; `columns` is
+`params.Columns` (after `toParams`), the result is the effective `MaxRows` -/
+def ccittClamp (columns maxRows : Int) : Option Int := do
+  let cols := frag_FilterCCITTFax_Decode_cols columns
+  let g ← frag_FilterCCITTFax_Decode_geoMax cols
+  pure (if frag_FilterCCITTFax_Decode_clamp maxRows g then g else maxRows)
 
 def handle (args : List String) : String :=
   match args with
@@ -160,6 +201,54 @@ def handle (args : List String) : String :=
     match a.toInt?, b.toInt? with
     | some a, some b => orPanic ((jbig2_checkedMul a b).map fun r => s!"{r.1} {showErr r.2}")
     | _, _ => "bad-arg"
+  | ["ccittBufferBytes", cols, k] =>
+    match cols.toInt?, k.toInt? with
+    | some c, some k => toString (ccitt_BufferBytes ⟨c, k, 0, false, false, false, false, 0⟩)
+    | _, _ => "bad-arg"
+  | ["ccittGetPixel", cols, black, hex, x] =>
+    match cols.toInt?, parseBool black, parseHex hex, x.toInt? with
+    | some c, some b, some line, some x =>
+      let p : ccitt_Params := ⟨c, 0, 0, false, false, b, false, 0⟩
+      orPanic ((ccitt_Params_getPixel p line x).map fun v => s!"{v.toNat} {(ccitt_Params_whiteBit p).toNat}")
+    | _, _, _, _ => "bad-arg"
+  | ["ccittEndOfRun", cols, black, hex, x, bit] =>
+    match cols.toInt?, parseBool black, parseHex hex, x.toInt?, bit.toNat? with
+    | some c, some b, some line, some x, some bit =>
+      orPanic ((ccitt_Params_endOfRun ⟨c, 0, 0, false, false, b, false, 0⟩ line x (UInt8.ofNat bit)).map toString)
+    | _, _, _, _, _ => "bad-arg"
+  | ["ccittClamp", columns, maxRows, feed] =>
+    -- rows the decoder delivers when `feed` rows are available: min(feed, effective MaxRows)
+    match columns.toInt?, maxRows.toInt?, feed.toInt? with
+    | some c, some r, some n => orPanic ((ccittClamp c r).map fun m => toString (min n m))
+    | _, _, _ => "bad-arg"
+  | "xrefGuards" :: sizeOk :: size :: rawLen :: w0 :: w1 :: w2 :: idx :: rest =>
+    match parseBool sizeOk, size.toInt?, rawLen.toInt?, w0.toInt?, w1.toInt?, w2.toInt?, ints rest with
+    | some ok, some size, some raw, some w0, some w1, some w2, some xs =>
+      if idx == "N" then xrefGuards ok size raw w0 w1 w2 none
+      else match pairs xs with
+        | some ps => xrefGuards ok size raw w0 w1 w2 (some ps)
+        | none => "bad-arg"
+    | _, _, _, _, _, _, _ => "bad-arg"
+  | ["nextString", hex, inc] =>
+    match parseHex hex, inc.toInt? with
+    | some s, some inc => orPanic ((cmap_nextString s inc).map hexU8)
+    | _, _ => "bad-arg"
+  | ["runes", hex] =>
+    match parseHex hex with
+    | some s => " ".intercalate ((Go.runes s).map toString ++ ["."])
+    | none => "bad-arg"
+  | "encodeRunes" :: rest =>
+    match ints rest with
+    | some rr => hexU8 (Go.stringOfRunes rr)
+    | none => "bad-arg"
+  | ["contentHexDigit", c] =>
+    match c.toNat? with
+    | some c => toString (content_hexDigit (UInt8.ofNat c)).toNat
+    | none => "bad-arg"
+  | ["contentNameClass", hex] =>
+    match parseHex hex with
+    | some n => s!"{showBool (content_isASCIIFilter n)} {showBool (content_needsClose n)} {showBool (content_isStrokeOp n)}"
+    | none => "bad-arg"
   | ["cmapRangeIsValid", lo, hi] =>
     match parseHex lo, parseHex hi with
     | some l, some h => orPanic ((cmap_rangeIsValid l h).map showBool)
